@@ -73,3 +73,7 @@ def run(ctx):
         ops.append(f'fault {kind} {n + 5} short {a}')
     ctx.stats = dict(artifacts=cover)
     ctx.both(ops)
+    # byte accounting of the CountingWriter under faults delivered as short writes / plain errors (compared with Model/CountingWriter)
+    import c04
+    ctx.both([o for o in c04.cw_ops(rng, 100 if not thorough else 2000) if o.split(' ')[1] in ('short', 'hard')])
+
